@@ -115,6 +115,15 @@ CHECKS = {
         "exactly; the spline constraint rows are the C1 conditions.",
    note="Necessary structural conditions; holding does not establish numerical accuracy or that fmatch reproduces representable force "
         "functions on data (needs execution). Trusted: Eigen decompositions."),
+ "C18": dict(cat="other", ref="DESIGN.md section 4 C18",
+   technique="CFG required-edge analysis (zero stride reaches a throw before the store), canonical-form comparison of the validity predicate with the iterator's end test (sibling/contradiction rule), printer-vs-parser grammar tables from folded stream items and guarded stores, AST checks of std::set normalisation and of the selection decision table",
+   text="Decides: every range block that ParseBlock stores has a non-zero stride and satisfies begin*stride <= end*stride, and the iterator "
+        "leaves a block by exactly the complementary sign-aware test (so every accepted expression terminates and descending ranges are "
+        "enumerated); the printer's forms b, b:e, b:s:e and the ',' separator are what the parser's token roles read back; index "
+        "vectors/strings are normalised through an ordered set in both directions with inclusive ranges; bead selection uses "
+        "wildcmp(pattern, name|type) according to the 'name:' prefix.",
+   note="Not decided: that tools::wildcmp implements glob semantics for all pattern/string pairs (a back-tracking matcher; would need "
+        "exhaustive comparison with a reference matcher - not static analysis), std::stoi's rejection of malformed numbers."),
 }
 NA = {
 }
